@@ -88,6 +88,7 @@ struct Opts {
     int unitSystem = -1;            // -1 random, 0 METRIC, 1 FIELD, 2 LAB
     bool histWells = true;
     bool wpimult = true;            // WPIMULT is applied when its report step closes (C04 exempts it)
+    bool richSummary = false;       // random SUMMARY section (opt-in: changes the random stream)
     bool vfpDefaultAlq = false;     // VFPPROD item 7 defaulted in 40 % of the tables (its meaning follows LIFTOPT; opt-in: changes the random stream)
     bool actionWpimult = false;     // WPIMULT inside ACTIONX bodies (two more body templates; changes the random stream, so opt-in)
 };
@@ -167,6 +168,11 @@ public:
             static const char* FIP[] = {"FIP=1", "FIP=2", "FIP=3", "FIPFOAM=2", "FIPPLY=2", "FIPRESV", "FIPSOL=2", "FIPTEMP=2", "FIPSURF=2", "FIPTR=2", "FIPVE", "RESTART=2", "PRES", "SOIL", "SWAT"};
             // boundary condition faces (BCCON) for the SCHEDULE keyword BCPROP
             if (rng.chance(0.4)) { m.gridExtra = "BCCON\n 1 1 1 1 " + std::to_string(m.ny) + " 1 " + std::to_string(m.nz) + " 'X-' /\n 2 " + std::to_string(m.nx) + " " + std::to_string(m.nx) + " 1 " + std::to_string(m.ny) + " 1 " + std::to_string(m.nz) + " 'X' /\n/\n"; m.hasBccon = true; }
+            // an analytic aquifer below the bottom layer (cell ranges are what the C20 boundary sweep steps through)
+            if (rng.chance(0.3)) {
+                m.solutionExtra += std::string(rng.chance(0.5) ? "AQUFETP\n 1 2100 250 1E8 1E-5 50 1 /\n/\n" : "AQUCT\n 1 2100 250 100 0.2 1E-5 1000 20 90 1 1 /\n/\n");
+                m.solutionExtra += "AQUANCON\n 1 1 " + std::to_string(m.nx) + " 1 " + std::to_string(m.ny) + " " + std::to_string(m.nz) + " " + std::to_string(m.nz) + " 'K+' " + (rng.chance(0.5) ? "1* 1*" : "500 1.5") + " " + (rng.chance(0.5) ? "'YES'" : "'NO'") + " /\n/\n";
+            }
             if (rng.chance(0.6)) { m.solutionExtra += "RPTSOL\n"; for (const char* f : FIP) if (rng.chance(0.3)) m.solutionExtra += std::string(" ") + f; m.solutionExtra += " /\n"; }
         }
         int nsteps = opt.minSteps + (int)rng.below(opt.maxSteps - opt.minSteps + 1);
@@ -192,7 +198,29 @@ public:
             }
             m.steps.push_back(step);
         }
+        if (opt.richSummary) m.summarySection = randomSummary(m);
         return m;
+    }
+
+    // SUMMARY requests of every category in random order and number (field, group, well, region incl. the ROEW family that
+    // SummaryConfig sorts behind everything else, block, connection, aquifer, the keywords without data)
+    std::string randomSummary(const Model& m) {
+        std::vector<std::string> ks;
+        auto some = [&](const std::vector<const char*>& v, int maxn) { std::vector<std::string> r; int n = (int)rng.below(maxn + 1); for (int i = 0; i < n; ++i) r.push_back(v[rng.below(v.size())]); return r; };
+        for (auto& k : some({"FOPR", "FWCT", "FGOR", "FPR", "FOIP", "FWIR", "FVPR", "FMWPR", "TCPU", "ELAPSED", "DATE", "RUNSUM", "SEPARATE", "PERFORMA", "ALL", "FWPT", "FGIT", "YEARS", "TIMESTEP"}, 4)) ks.push_back(k + "\n");
+        for (auto& k : some({"WOPT", "WWCT", "WTHP", "WGOR", "WPI", "WWIR", "WGPT", "WVPR", "WSTAT", "WMCTL"}, 3)) {
+            std::string t = k + "\n";
+            if (!m.wells.empty() && rng.chance(0.5)) { int n = 1 + (int)rng.below(2); for (int i = 0; i < n; ++i) t += " '" + m.wells[rng.below(m.wells.size())].name + "'"; }
+            ks.push_back(t + " /\n");
+        }
+        for (auto& k : some({"GOPT", "GWIR", "GGPR", "GWCT", "GVPR"}, 2)) ks.push_back(k + (rng.chance(0.5) || m.groups.empty() ? "\n /\n" : "\n '" + m.groups[rng.below(m.groups.size())].first + "' /\n"));
+        for (auto& k : some({"ROIP", "RPR", "ROEW", "RWIP", "ROPT", "ROEW", "RGIP", "ROFT", "RWFT", "ROEW"}, 3)) ks.push_back(k + (rng.chance(0.4) ? "\n /\n" : rng.chance(0.5) ? "\n 1 /\n" : "\n 1 2 /\n"));
+        for (auto& k : some({"BPR", "BOSAT", "BWSAT", "BGSAT"}, 2)) ks.push_back(k + "\n 1 1 1 /\n " + std::to_string(m.nx) + " " + std::to_string(m.ny) + " " + std::to_string(m.nz) + " /\n/\n");
+        if (!m.wells.empty()) for (auto& k : some({"COFR", "CWFR", "CGFR", "CPR"}, 2)) { const auto& w = m.wells[rng.below(m.wells.size())]; ks.push_back(k + "\n '" + w.name + "'" + (rng.chance(0.5) || w.ks.empty() ? "" : " " + std::to_string(w.i) + " " + std::to_string(w.j) + " " + std::to_string(w.ks[0])) + " /\n/\n"); }
+        for (auto& k : some({"AAQR", "AAQT", "AAQP"}, 1)) ks.push_back(k + "\n 1 /\n");
+        rng.shuffle(ks);
+        std::string r; for (auto& k : ks) r += k;
+        return r;
     }
 
     // a random ACTIONX body (also used by C04 directly)
